@@ -73,7 +73,7 @@ func newStubBastion(dir, tag string) (*stubBastion, error) {
 	return &stubBastion{ln: ln, caFile: caFile}, nil
 }
 
-func (b *stubBastion) close() { b.ln.Close(); os.Remove(b.caFile) }
+func (b *stubBastion) close()       { b.ln.Close(); os.Remove(b.caFile) }
 func (b *stubBastion) addr() string { return b.ln.Addr().String() }
 
 // accept waits for the witness to dial in (it does so on a 5 s ticker, also after a connection was lost).
@@ -137,6 +137,7 @@ type prodCfg struct {
 	Poll    time.Duration
 	Dist    string
 	Rate    float64
+	Metrics bool // serve Prometheus metrics (the binary's --metrics_listen) on a free port
 }
 
 type tailBuf struct {
@@ -156,11 +157,12 @@ func (t *tailBuf) Write(p []byte) (int, error) {
 func (t *tailBuf) String() string { t.mu.Lock(); defer t.mu.Unlock(); return string(t.b) }
 
 type prodProc struct {
-	cmd    *exec.Cmd
-	api    string
-	log    *tailBuf
-	exited chan struct{}
-	files  []string
+	cmd     *exec.Cmd
+	api     string
+	metrics string
+	log     *tailBuf
+	exited  chan struct{}
+	files   []string
 }
 
 func freePort() (string, error) {
@@ -208,7 +210,12 @@ func startProdOnce(c prodCfg) (*prodProc, error) {
 		return nil, err
 	}
 	files := []string{yamlPath}
-	args := []string{"--listen", api, "--metrics_listen", "", "--private_key", c.WitSKey, "--poll_interval", c.Poll.String(), "--logtostderr"}
+	// Prometheus metrics are ON in the shipped default (--metrics_listen :8081): the binary always runs with its real metric factory here
+	maddr, err := freePort()
+	if err != nil {
+		return nil, err
+	}
+	args := []string{"--listen", api, "--metrics_listen", maddr, "--private_key", c.WitSKey, "--poll_interval", c.Poll.String(), "--logtostderr"}
 	if c.DB != "" {
 		args = append(args, "--db_file", c.DB)
 	}
@@ -238,7 +245,7 @@ func startProdOnce(c prodCfg) (*prodProc, error) {
 	if err := cmd.Start(); err != nil {
 		return nil, err
 	}
-	p := &prodProc{cmd: cmd, api: api, log: lg, exited: make(chan struct{}), files: files}
+	p := &prodProc{cmd: cmd, api: api, metrics: maddr, log: lg, exited: make(chan struct{}), files: files}
 	go func() { _ = cmd.Wait(); close(p.exited) }()
 	deadline := time.Now().Add(20 * time.Second)
 	for time.Now().Before(deadline) {
@@ -282,6 +289,42 @@ func (p *prodProc) kill() {
 	for _, f := range p.files {
 		os.Remove(f)
 	}
+}
+
+// scrape reads the binary's Prometheus endpoint: counter name (without the omniwitness_ prefix) -> logid label -> value.
+func (p *prodProc) scrape() (map[string]map[string]int, error) {
+	resp, err := http.Get("http://" + p.metrics + "/metrics")
+	if err != nil {
+		return nil, err
+	}
+	defer resp.Body.Close()
+	if resp.StatusCode != 200 {
+		return nil, fmt.Errorf("metrics endpoint answered %d", resp.StatusCode)
+	}
+	out := map[string]map[string]int{}
+	sc := bufio.NewScanner(resp.Body)
+	sc.Buffer(make([]byte, 1<<20), 1<<24)
+	for sc.Scan() {
+		line := sc.Text()
+		k := strings.Index(line, "witness_update_")
+		if strings.HasPrefix(line, "#") || k < 0 {
+			continue
+		}
+		i, j := strings.Index(line, `{logid="`), strings.Index(line, `"} `)
+		if i < k || j < i {
+			continue
+		}
+		name, id := line[k:i], line[i+8:j] // whatever prefix the operator's factory puts in front of the name
+		var v float64
+		if _, err := fmt.Sscanf(line[j+3:], "%g", &v); err != nil {
+			return nil, fmt.Errorf("unparsable sample %q", line)
+		}
+		if out[name] == nil {
+			out[name] = map[string]int{}
+		}
+		out[name][id] = int(v)
+	}
+	return out, sc.Err()
 }
 
 func (p *prodProc) get(id string) (int, []byte, error) {
@@ -358,6 +401,7 @@ func prodConcMain(args []string) error {
 	dir := fs.String("dir", os.TempDir(), "scratch")
 	storeKind := fs.String("store", "sqlfile", "sqlfile | inmem")
 	seed := fs.Int64("seed", 1, "seed")
+	withMetrics := fs.Bool("metrics", false, "scrape the binary's Prometheus endpoint after every run (C20)")
 	_ = fs.Parse(args)
 	f, err := os.Open(*in)
 	if err != nil {
@@ -403,11 +447,16 @@ func prodConcMain(args []string) error {
 		return err
 	}
 	defer sb.close()
-	cfg := prodCfg{Bin: *bin, Dir: *dir, Tag: "conc", Yaml: prodYaml(ws), WitSKey: base.WitKey.SKey(), Bastion: sb.addr(), CAFile: sb.caFile}
+	cfg := prodCfg{Bin: *bin, Dir: *dir, Tag: "conc", Yaml: prodYaml(ws), WitSKey: base.WitKey.SKey(), Bastion: sb.addr(), CAFile: sb.caFile, Metrics: *withMetrics}
 	if *storeKind == "sqlfile" {
 		cfg.DB = filepath.Join(*dir, fmt.Sprintf("prod-conc-%d.db", *seed))
 		os.Remove(cfg.DB)
-		defer func() { os.Remove(cfg.DB); os.Remove(cfg.DB + "-journal"); os.Remove(cfg.DB + "-wal"); os.Remove(cfg.DB + "-shm") }()
+		defer func() {
+			os.Remove(cfg.DB)
+			os.Remove(cfg.DB + "-journal")
+			os.Remove(cfg.DB + "-wal")
+			os.Remove(cfg.DB + "-shm")
+		}()
 	}
 	p, err := startProd(cfg)
 	if err != nil {
@@ -501,6 +550,18 @@ func prodConcMain(args []string) error {
 			return fmt.Errorf("run %s: the binary exited: %s", tag, tailOf(p.log.String(), 3000))
 		}
 		rec.add(linEvent{E: "final", Run: tag, Stored: project(w, prodSnapshot(p, w))})
+		if *withMetrics {
+			m, err := p.scrape()
+			if err != nil {
+				return fmt.Errorf("run %s: %v", tag, err)
+			}
+			ctr := map[string]Ctr{}
+			for name, l := range w.Logs {
+				ctr[name] = Ctr{Attempt: m["witness_update_request"][l.ID], Success: m["witness_update_success"][l.ID],
+					BadProof: m["witness_update_invalid_consistency"][l.ID], Inconsistent: m["witness_update_inconsistent_checkpoints"][l.ID]}
+			}
+			rec.add(linEvent{E: "metrics", Run: tag, Ctr: ctr})
+		}
 		if err := tw.writeRun(rec.ev); err != nil {
 			return err
 		}
